@@ -60,7 +60,7 @@ Fixpoint norm (e : rexpr) : option lpoly :=
   | RDiv a b =>
     if int_only a && int_only b then None
     else match norm a, norm b with
-         | Some u, Some [(c, m)] => Some (lscale (Qinv c) (mono_inv m) u)
+         | Some u, Some [(c, m)] => if Qeq_bool c 0 then None else Some (lscale (Qinv c) (mono_inv m) u)
          | _, _ => None
          end
   end.
